@@ -35,10 +35,10 @@ EXPLANATION = ('C08: the real circusd.main() on a generated configuration (1-2 w
                'exclusive operation; and the pid-file protocol over structured file contents. ')
 
 TRIGGERS = ('quit', 'quit_waiting', int(signal.SIGTERM), int(signal.SIGINT), int(signal.SIGQUIT))
-PRE = ('none', 'incr', 'restart', 'reload', 'kill', 'late_socket')
+PRE = ('none', 'incr', 'restart', 'reload', 'kill', 'late_socket', 'on_demand', 'on_demand_death')
 
 
-def _config(tmp, stubborn, two, warm, nosock=False):
+def _config(tmp, stubborn, two, warm, nosock=False, ondemand=False):
     if nosock:
         return '\n'.join(['[circus]', 'check_delay = 1', 'endpoint = tcp://127.0.0.1:5555', 'pubsub_endpoint = tcp://127.0.0.1:5556',
                           'pidfile = %s' % os.path.join(tmp, 'circusd.pid'), '',
@@ -46,7 +46,7 @@ def _config(tmp, stubborn, two, warm, nosock=False):
     lines = ['[circus]', 'check_delay = 1', 'endpoint = tcp://127.0.0.1:5555', 'pubsub_endpoint = tcp://127.0.0.1:5556',
              'pidfile = %s' % os.path.join(tmp, 'circusd.pid'), '',
              '[watcher:web]', 'cmd = webprog --fd $(circus.sockets.web)', 'numprocesses = 2', 'use_sockets = True',
-             'graceful_timeout = 0.4', 'warmup_delay = %d' % warm, '',
+             'graceful_timeout = 0.4', 'warmup_delay = %d' % (1 if ondemand else warm)] + (['on_demand = True'] if ondemand else []) + ['',
              '[socket:web]', 'path = %s' % os.path.join(tmp, 'web.sock'), '',
              '[socket:api]', 'host = 127.0.0.1', 'port = 0', '']
     if two:
@@ -71,7 +71,7 @@ def c08_shutdown(ti: int, pi: int, d: int, late: int, rep: int) -> bool:
     tmp = tempfile.mkdtemp(prefix='c08_')
     cfgpath = os.path.join(tmp, 'circus.ini')
     with open(cfgpath, 'w') as f:
-        f.write(_config(tmp, S.get('stubborn', False), S.get('two', True), S.get('warm', 0), nosock=(pre == 'late_socket')))
+        f.write(_config(tmp, S.get('stubborn', False), S.get('two', True), S.get('warm', 0), nosock=(pre == 'late_socket'), ondemand=(pre in ('on_demand', 'on_demand_death'))))
     old_argv = sys.argv
     state = {'fired': False, 'hung': False, 'pre_req': None, 'quit_req': None}
     try:
@@ -123,6 +123,10 @@ def c08_shutdown(ti: int, pi: int, d: int, late: int, rep: int) -> bool:
                     state['pre_req'] = w.send('restart', name='web', match='simple')
                 elif pre == 'reload':
                     state['pre_req'] = w.send('reload', name='web')
+                elif pre in ('on_demand', 'on_demand_death'):
+                    # first connection on the managed socket: the next periodic check starts the on_demand watcher IN THE BACKGROUND
+                    # (two workers 1 s apart: the watcher is 'starting' for two seconds)
+                    w.select_result = [w.arbiter.sockets['web'].fileno()]
                 elif pre == 'late_socket':
                     # a managed socket is added to a daemon that started without any, by reloadconfig
                     with open(cfgpath, 'a') as f_:
@@ -148,6 +152,16 @@ def c08_shutdown(ti: int, pi: int, d: int, late: int, rep: int) -> bool:
                 pre_request()
                 if pre == 'late_socket':
                     w.vloop.call_later(1.0 + 0.1 * late, fire)       # after the reloadconfig has completed
+                elif pre == 'on_demand':
+                    w.vloop.call_later(0.75 + 0.4 * late, fire)      # check_delay 1 s: the start begins at the next whole second
+                elif pre == 'on_demand_death':
+                    # the on_demand watcher is up (two workers), one of them is killed from outside, a periodic check notices; then the trigger
+                    def one_dies():
+                        alive = k.alive_pids('web')
+                        if alive:
+                            k.external_kill(alive[0])
+                    w.vloop.call_later(3.2, one_dies)
+                    w.vloop.call_later(4.0 + 0.4 * late, fire)
                 elif late == 0:
                     fire()
                 else:
@@ -363,8 +377,10 @@ def plan(tier):
     q = tier == 'quick'
     sh = []
     for pi in range(len(PRE)):
-        sh.append({'pre': pi, 'dmax': 0, 'stubborn': False})
-        sh.append({'pre': pi, 'dmax': 0, 'stubborn': True})
+        # on_demand: the watcher is alone (with a second watcher ahead of it in the start order the background start never reaches it)
+        extra = {'two': False} if PRE[pi] in ('on_demand', 'on_demand_death') else {}
+        sh.append(dict({'pre': pi, 'dmax': 0, 'stubborn': False}, **extra))
+        sh.append(dict({'pre': pi, 'dmax': 0, 'stubborn': True}, **extra))
     sh.append({'pre': 0, 'dmax': 0, 'stubborn': True, 'repmax': 2})
     sh.append({'pre': 0, 'dmax': 12 if q else 40, 'stubborn': False})
     sh.append({'pre': 0, 'dmax': 12 if q else 40, 'stubborn': True, 'warm': 1})
